@@ -9,8 +9,9 @@ Inductive case :=
 | CBack (sc : schema) (ast : tsdoc) (sc2 : schema)
 (** both routes for one schema model M: D = parsed SDL + built-ins, resolved; J = the introspection result built
     independently from M by the harness; out_* = the implementation's Schema values.  [strict] = compare on every
-    type name (the unguarded property); otherwise on [vis_of M]. *)
-| CRoutes (strict : bool) (st : jstyle) (meta : bool) (M : smodel) (D : tsdoc) (J : json) (out_sdl : schema) (out_json : res schema)
+    type name (the unguarded property); otherwise on [vis_of M].  [guard] = the harness's claim that M satisfies
+    [model_ok] (the hypothesis of C15_routes_agree). *)
+| CRoutes (strict guard : bool) (st : jstyle) (meta : bool) (M : smodel) (D : tsdoc) (J : json) (out_sdl : schema) (out_json : res schema)
 (** verdicts of check_operation_document for one operation document under the two Schema values *)
 | CVerdict (label : str) (ok_sdl ok_json : bool)
 (** writer operations of SchemaTypePrinter::print_document on the two routes *)
@@ -204,16 +205,38 @@ Definition aliases_agree (strict : bool) (a1 a2 : list alias_entry) : bool :=
           (map fst a1 ++ map fst a2).
 
 (* ------------------------------------------------------------------------------------------ *)
+(** what type_system_to_ast followed by ast_to_type_system (the Schema the declaration printers work from on the JSON
+    route) must preserve: every type definition up to positions, default-value text and deprecation (the AST the
+    conversion produces carries no directives), the description, and the declared root operation types *)
+Definition strip_input (i : sinput) : sinput := mkSInput (si_name i) (si_desc i) (si_type i) (si_default i) None.
+Definition strip_field (f : sfield) : sfield := mkSField (sf_name f) (sf_desc f) (sf_type f) (map strip_input (sf_args f)) None.
+Definition strip_typedef (d : stypedef) : stypedef :=
+  match d with
+  | SDObject n ds fs is_ => SDObject n ds (map strip_field fs) is_
+  | SDInterface n ds fs is_ => SDInterface n ds (map strip_field fs) is_
+  | SDEnum n ds ms => SDEnum n ds (map (fun e => mkSMember (sm_name e) (sm_desc e) None) ms)
+  | SDInput n ds fs => SDInput n ds (map strip_input fs)
+  | d => d
+  end.
+Definition back_equiv_b (a b : schema) : bool :=
+  option_eqb str_eqb (option_map nval (sc_desc a)) (option_map nval (sc_desc b))
+  && forallb (fun op => option_eqb str_eqb (option_map nval (declared_root (nval (sc_roots a)) op))
+                                          (option_map nval (declared_root (nval (sc_roots b)) op))) all_ops
+  && list_eqb str_eqb (map fst (sc_types a)) (map fst (sc_types b))
+  && forallb (fun n => option_eqb stypedef_eqb (option_map (fun d => norm_typedef (strip_typedef d)) (get_type a n))
+                                               (option_map norm_typedef (get_type b n))) (map fst (sc_types a)).
 
 Definition agree (c : case) : bool :=
   match c with
   | CJson _ j out => res_eqb schema_eqb (json_route j) out
   | CBack sc ast sc2 => tsdoc_eqb (type_system_to_ast sc) ast && schema_eqb (ast_to_type_system ast) sc2
-  | CRoutes strict st meta M D J out_sdl out_json =>
+  | CRoutes strict guard st meta M D J out_sdl out_json =>
       strict ||
       (schema_eqb (ast_to_type_system D) out_sdl && res_eqb schema_eqb (json_route J) out_json
-       (* the spec-side functions describe the inputs the implementation was given *)
-       && json_eqb (introspect st meta M) J && doc_equiv_b D (sdl_doc M))
+       (* the spec-side functions describe the inputs the implementation was given, and the hypotheses of
+          C15_routes_agree hold for them *)
+       && json_eqb (introspect st meta M) J && doc_equiv_b D (sdl_doc M) && parsed_positions_b D
+       && Bool.eqb (model_ok M) guard)
   | CVerdict _ _ _ => true
   | CAlias _ _ _ => true
   end.
@@ -222,8 +245,8 @@ Definition agree (c : case) : bool :=
 Definition holds (c : case) : bool :=
   match c with
   | CJson _ _ _ => true
-  | CBack _ _ _ => true
-  | CRoutes strict _ _ M _ _ out_sdl out_json =>
+  | CBack sc _ sc2 => back_equiv_b sc sc2
+  | CRoutes strict _ _ _ M _ _ out_sdl out_json =>
       match out_json with
       | Ok sj => schema_equiv_b (if strict then vis_all else vis_of M) sj out_sdl
       | Err _ => false
